@@ -734,6 +734,9 @@ def _check_counter(ctx: Ctx, res: RuleResult, cb: Func, counter: Term) -> None:
     function results, under the `return_functions` condition."""
     from ..terms import attr_chain
 
+    # the counter as read at the test may already carry this call's increment (`self.n += k` just before the test)
+    while counter[0] == "aug":
+        counter = counter[2]
     _root, names = attr_chain(counter)
     if not names:
         return
